@@ -468,21 +468,29 @@ Definition slots_strides_of (st : sstate) (mi : nat) (m : cmeth) (t : ctable) : 
   let sl := nth mi (s_slots st) [] in
   if length (cm_vp m) =? 1 then firstn 1 sl else sl ++ t_strides t.
 
-Definition install (L : lattice) (ms : list cmeth) (st : sstate) : compiled :=
+(* install_gv.  `stale` is what Policy::dispatch_data held before this update (the vector is resized, not cleared):
+   the cells this update does not write keep whatever was there. *)
+Definition install_with (stale : list word) (L : lattice) (ms : list cmeth) (st : sstate) : compiled :=
   let tables := map (build_method L) ms in
   let vt := write_vtbls L ms st in
   let report := fold_left accumulate (map t_report tables) (mk_rep 0 0 0 0 0 0) in
   let '(offs, img1) := place_tables 0 0 (combine ms tables) in
   let '(vptrs, img2) := place_vtbls (length img1) (s_first st) (map (map (entry_word ms tables offs)) vt) in
   let img := img1 ++ img2 in
-  let img3 := img ++ repeat WJunk (total_cells tables vt - length img) in
+  let k := total_cells tables vt - length img in
+  let img3 := img ++ firstn k (skipn (length img) stale ++ repeat WJunk k) in
   let ss := map (fun '(mi, (m, t)) => slots_strides_of st mi m t) (combine (seq 0 (length ms)) (combine ms tables)) in
   mk_comp L ms (s_slots st) (s_first st) vt tables report offs img3 vptrs ss (s_fuel_ok st).
 
-Definition compile (R : registry) : result compiled :=
+Definition install := install_with [].
+
+(* update: everything is recomputed from the catalogs; only dispatch_data's old contents (stale) persist *)
+Definition compile_with (stale : list word) (R : registry) : result compiled :=
   do L <- augment_classes R;
   do ms <- augment_methods R (l_keys L) (r_methods R);
-  Ok (install L ms (assign_slots L ms)).
+  Ok (install_with stale L ms (assign_slots L ms)).
+
+Definition compile := compile_with [].
 
 (* ------------------------------------------------------------------ the call side: method::resolve *)
 
